@@ -29,7 +29,7 @@ EXPLANATION = (
     "_stopping located after that suspension (facts on self.* are killed at suspensions)."
     ' Also: ConsumerGroup.stop() shuts the consumers down before leaving and sweeps them again after the fence is up (R2, finding F41); the fence is never lowered outside start (R7); a commit is abandoned without retry only for non-retriable broker answers (R3).'
 )
-SHARED = [('C17', ['R8'], 'a member whose generation has been superseded does rejoin: its consumers do not run on under the old generation'), ('C13', ['R5'], 'consumers shut down before a rejoin commit everything they processed'), ('C03', ['R6', 'R7'], "partition consumers start from the group's committed position and commit with their generation and member id"), ('C14', ['R3'], 'a consumer that cannot learn the committed position fails instead of starting elsewhere'), ('C02', ['R6'], "consumers start from the group's committed position")]
+SHARED = [('C17', ['R8', 'R9'], 'a member whose generation has been superseded does rejoin: its consumers do not run on under the old generation (a commit rejected for one consumer reaches the eviction decision)'), ('C13', ['R5'], 'consumers shut down before a rejoin commit everything they processed'), ('C03', ['R6', 'R7'], "partition consumers start from the group's committed position and commit with their generation and member id"), ('C14', ['R3'], 'a consumer that cannot learn the committed position fails instead of starting elsewhere'), ('C02', ['R6'], "consumers start from the group's committed position")]
 ASSUMPTIONS = [
     "Twisted inlineCallbacks: other code (stop()) can run at every yield of a pending Deferred, not between yields",
     "Consumer.shutdown()/stop() semantics are those checked by C13",
@@ -50,7 +50,7 @@ def run(ctx):
 
     # ---- R1 consumers carry the generation
     r = ctx.rule("R1", "partition consumers are constructed at one site with group, member id and generation, and "
-                       "start from the committed position", 2, "A")
+                       "start from the committed position", 3, "A")
     sites = []
     for f in prog.functions(module="_group"):
         for c in calls_in(f, "Consumer"):
@@ -69,6 +69,22 @@ def run(ctx):
             "consumer construction does not carry group/member/generation or does not start at OFFSET_COMMITTED: %s" % got,
             where(f, c), "commits of a stale member are not fenced; consumers restart from the wrong position")
 
+    # ... one for every (topic, partition) of the decoded assignment: inside the loops over the assignment nothing decides
+    # whether a partition gets its consumer, and topic and partition are the loop variables
+    cfc = ctx.cfg(f)
+    cn = cfc.containing(c)
+    if cn:
+        deps = cfc.control_deps_transitive(cn[0].id)
+        loops1 = [t for t, lab in deps if t.kind == "for"]
+        tests1 = [t for t, lab in deps if t.kind == "test" and any(cfc.dominates([l_.id], t.id) for l_ in loops1)]
+        tvars = set()
+        for l_ in loops1:
+            tvars |= {y.id for y in ast.walk(l_.stmt.target) if isinstance(y, ast.Name)}
+        tp_ok = all(kwarg(c, k) is not None and isinstance(kwarg(c, k), ast.Name) and kwarg(c, k).id in tvars for k in ("topic", "partition"))
+        r.check(len(loops1) >= 1 and not tests1 and tp_ok, "%s#a-consumer-for-every-assigned-partition" % f.qname,
+                "inside the loops over the assignment the construction of the partition consumer is conditional (%s) or does not take topic and "
+                "partition from the loops" % [norm(t.stmt.test, 50) for t in tests1], where(f, c),
+                "a member assigned orders/0 and payments/0 starts a consumer for only one of them: the other partition is consumed by nobody")
     # ---- R2 shut down before (re)join
     r = ctx.rule("R2", "the prepare hook is awaited on every path before the join request; it shuts every consumer down; so does stop() before it leaves, and sweeps after",
                  6, "B")
